@@ -88,9 +88,24 @@ func (n *RangeLiteralNode) Equal(other value.Value) bool {
 		return false
 	}
 
-	return n.Start.Equal(value.Ref(o.Start)) &&
-		n.End.Equal(value.Ref(o.End)) &&
-		n.Op.Equal(o.Op) &&
+	// beginless and endless ranges have no start or no end
+	if n.Start == nil || o.Start == nil {
+		if n.Start != nil || o.Start != nil {
+			return false
+		}
+	} else if !n.Start.Equal(value.Ref(o.Start)) {
+		return false
+	}
+
+	if n.End == nil || o.End == nil {
+		if n.End != nil || o.End != nil {
+			return false
+		}
+	} else if !n.End.Equal(value.Ref(o.End)) {
+		return false
+	}
+
+	return n.Op.Equal(o.Op) &&
 		n.loc.Equal(o.loc)
 }
 
